@@ -479,7 +479,7 @@ def materialise(world, directory):
     return names
 
 
-def twin(world, victim, delta=250.0):
+def twin(world, victim, delta=250.0, protect=()):
     """Copy of `world` in which party `victim`'s non-missing forecast-type values are changed
     (same missingness, observations untouched)."""
     import copy
@@ -487,7 +487,7 @@ def twin(world, victim, delta=250.0):
     party = parties(w)[victim]
     for name, grid in party["fields"].items():
         kind = field_kind(name)[0]
-        if kind == "obs":
+        if kind == "obs" or name in protect:
             continue
         for plane in grid:
             for row in plane:
